@@ -219,8 +219,8 @@ type tierCfg struct {
 }
 
 var tiers = map[string]tierCfg{
-	"quick": {maxCorpus: 16 << 10, corpusEvery: 6, nMut: 1300, nCore: 300, nRich: 900, nCyc: 200, nBuiltin: 250,
-		batch: 64, perInputTimeout: 30},
+	"quick": {maxCorpus: 16 << 10, corpusEvery: 6, nMut: 900, nCore: 200, nRich: 700, nCyc: 150, nBuiltin: 200,
+		batch: 64, perInputTimeout: 20},
 	"thorough": {maxCorpus: 64 << 10, corpusEvery: 1, nMut: 30000, nCore: 4000, nRich: 12000, nCyc: 3000, nBuiltin: 4000,
 		deepSizes: []int{1000, 5000, 9999, 10001, 20000}, batch: 64, perInputTimeout: 60},
 }
@@ -319,6 +319,16 @@ func buildInputs(repo, tier string, seed uint64, bigMode string) ([]Input, map[s
 		} else {
 			add("cycle-struct", []byte(genCycle(ry, structCycles)), "decorated")
 		}
+	}
+	// edge inputs: seed independent, both tiers
+	for _, e := range edgeMul() {
+		add("edge-mul", []byte(e[1]), e[0])
+	}
+	for _, e := range edgeIndex() {
+		add("edge-index", []byte(e[1]), e[0])
+	}
+	for _, e := range edgeTrunc() {
+		add("edge-trunc", []byte(e[1]), e[0])
 	}
 	// deep nesting: seed independent
 	if tier == "quick" {
